@@ -187,12 +187,45 @@ func (r *rewriter) rewriteNode(n ast.Node) {
 	})
 }
 
+// rewriteGo: `go f(a, b)` becomes
+//
+//	{ simf := f; sima0 := a; sima1 := b; simrt.Go(func() { simf(sima0, sima1) }, site) }
+//
+// so that the function value and the arguments are still evaluated at the go statement, and
+// the new goroutine becomes a task of the simulated scheduler.
 func (r *rewriter) rewriteGo(c *astutil.Cursor, g *ast.GoStmt) {
-	fl, ok := g.Call.Fun.(*ast.FuncLit)
-	if !ok || len(g.Call.Args) != 0 {
-		fatal("go statement at %s: only `go func() {...}()` without arguments can be mediated", r.pos(g))
+	if _, labeled := c.Parent().(*ast.LabeledStmt); labeled {
+		fatal("labelled go statement at %s cannot be mediated", r.pos(g))
 	}
-	c.Replace(&ast.ExprStmt{X: &ast.CallExpr{Fun: sel("simrt", "Go"), Args: []ast.Expr{fl, r.site()}}})
+	r.tmp++
+	var pre []ast.Stmt
+	call := &ast.CallExpr{Fun: g.Call.Fun, Ellipsis: g.Call.Ellipsis}
+	isConst := func(e ast.Expr) bool {
+		tv, ok := r.p.TypesInfo.Types[e]
+		return ok && (tv.Value != nil || tv.IsNil())
+	}
+	switch fn := ast.Unparen(g.Call.Fun).(type) {
+	case *ast.FuncLit:
+		// evaluated in place: a literal has no side effects
+	case *ast.Ident:
+		_ = fn
+	default:
+		name := fmt.Sprintf("simf%d", r.tmp)
+		pre = append(pre, &ast.AssignStmt{Lhs: []ast.Expr{ast.NewIdent(name)}, Tok: token.DEFINE, Rhs: []ast.Expr{g.Call.Fun}})
+		call.Fun = ast.NewIdent(name)
+	}
+	for i, a := range g.Call.Args {
+		if isConst(a) {
+			call.Args = append(call.Args, a)
+			continue
+		}
+		name := fmt.Sprintf("sima%d_%d", r.tmp, i)
+		pre = append(pre, &ast.AssignStmt{Lhs: []ast.Expr{ast.NewIdent(name)}, Tok: token.DEFINE, Rhs: []ast.Expr{a}})
+		call.Args = append(call.Args, ast.NewIdent(name))
+	}
+	body := &ast.FuncLit{Type: &ast.FuncType{Params: &ast.FieldList{}}, Body: &ast.BlockStmt{List: []ast.Stmt{&ast.ExprStmt{X: call}}}}
+	goCall := &ast.ExprStmt{X: &ast.CallExpr{Fun: sel("simrt", "Go"), Args: []ast.Expr{body, r.site()}}}
+	c.Replace(&ast.BlockStmt{List: append(pre, goCall)})
 	r.changed = true
 	st.Go++
 }
